@@ -250,3 +250,81 @@ theorem declared_in_scope (sample instr sibs : List String) (v : String)
   simp [studentScope, h1, h2, h3]
 
 end C09
+
+namespace C09
+open C03 Rs
+
+/-- the scratch sets of the three formula entries of a sum / integral -/
+def entrySc (l u b : Sc) : Entry → Sc
+  | .lower => l | .upper => u | .body => b
+
+/-- **A typed entry may not mention an instructor variable**: whichever of the limits or the summand / integrand the student is
+asked for, an instructor-only variable occurring anywhere in it (cancelling or not) makes the submission a scope error — the whole
+check never returns "no error". (F13 changed the scope of the *other* entries only.) -/
+theorem typed_entry_hidden {sample instr : List String} {funcs sufs : String → Bool} {asked : Entry → Bool} {dummy : String}
+    {tl tu tb : List Tok} {l u b : T} {scl scu scb : Sc} {e : Entry} {z : String}
+    (hl : parseUsage tl = some (l, scl)) (hu : parseUsage tu = some (u, scu)) (hb : parseUsage tb = some (b, scb))
+    (hasked : asked e = true) (hz : z ∈ instr) (hzs : z ∈ sample) (hd : z ≠ dummy)
+    (hocc : (Kind.var, z) ∈ names (match e with | .lower => l | .upper => u | .body => b)) :
+    sumScopeCheck sample instr funcs sufs asked dummy scl scu scb ≠ none := by
+  have hhid : entryScope sample instr asked e z = false := by
+    simp only [entryScope, hasked, ↓reduceIte]
+    exact instructor_and_sibling_hidden sample instr [] z (Or.inl ⟨hz, hzs⟩)
+  unfold sumScopeCheck
+  cases e with
+  | lower =>
+    obtain ⟨lst, h1, _⟩ := hidden_name_undefined (vars := entryScope sample instr asked .lower) (funcs := funcs) (sufs := sufs) hl hocc hhid
+    simp [h1]
+  | upper =>
+    cases h0 : checkScope (entryScope sample instr asked .lower) funcs sufs scl with
+    | some _ => simp
+    | none =>
+      obtain ⟨lst, h1, _⟩ := hidden_name_undefined (vars := entryScope sample instr asked .upper) (funcs := funcs) (sufs := sufs) hu hocc hhid
+      simp [h1]
+  | body =>
+    cases h0 : checkScope (entryScope sample instr asked .lower) funcs sufs scl with
+    | some _ => simp
+    | none =>
+      cases h1 : checkScope (entryScope sample instr asked .upper) funcs sufs scu with
+      | some _ => simp
+      | none =>
+        have hb' : bodyScope sample instr asked dummy z = false := by
+          simp only [bodyScope, hhid, Bool.or_false, beq_eq_false_iff_ne, ne_eq]; exact hd
+        obtain ⟨lst, h2, _⟩ := hidden_name_undefined (vars := bodyScope sample instr asked dummy) (funcs := funcs) (sufs := sufs) hb hocc hb'
+        simp [h2]
+
+/-- **The author's own entries remain free to use instructor variables** (F13): when every name of every entry is a sampled name
+(instructor variables included) for the entries the student is NOT asked for, a name of the student's scope for the typed ones, or
+the dummy variable in the body, and all functions / suffixes are known, the student's evaluation passes the scope checks. -/
+theorem author_entries_free {sample instr : List String} {funcs sufs : String → Bool} {asked : Entry → Bool} {dummy : String}
+    {scl scu scb : Sc}
+    (hv : ∀ e x, (Kind.var, x) ∈ entrySc scl scu scb e → (e = .body ∧ x = dummy) ∨
+        (if asked e then studentScope sample instr [] x = true else x ∈ sample))
+    (hf : ∀ e x, (Kind.func, x) ∈ entrySc scl scu scb e → funcs x = true)
+    (hs : ∀ e x, (Kind.suf, x) ∈ entrySc scl scu scb e → sufs x = true) :
+    sumScopeCheck sample instr funcs sufs asked dummy scl scu scb = none := by
+  have scopeOf : ∀ e x, (Kind.var, x) ∈ entrySc scl scu scb e → ¬(e = .body ∧ x = dummy) → entryScope sample instr asked e x = true := by
+    intro e x hx hnd
+    rcases hv e x hx with h | h
+    · exact absurd h hnd
+    · unfold entryScope
+      by_cases ha : asked e = true
+      · simpa [ha] using h
+      · have ha' : asked e = false := by simpa using ha
+        simp only [ha', Bool.false_eq_true, ↓reduceIte] at h ⊢
+        simpa using h
+  have h1 : checkScope (entryScope sample instr asked .lower) funcs sufs scl = none :=
+    scope_ok (fun x hx => scopeOf .lower x hx (by simp)) (hf .lower) (hs .lower)
+  have h2 : checkScope (entryScope sample instr asked .upper) funcs sufs scu = none :=
+    scope_ok (fun x hx => scopeOf .upper x hx (by simp)) (hf .upper) (hs .upper)
+  have h3 : checkScope (bodyScope sample instr asked dummy) funcs sufs scb = none := by
+    apply scope_ok _ (hf .body) (hs .body)
+    intro x hx
+    unfold bodyScope
+    by_cases hd : x = dummy
+    · simp [hd]
+    · have := scopeOf .body x hx (by simp [hd])
+      simp [this]
+  simp [sumScopeCheck, h1, h2, h3]
+
+end C09
